@@ -283,7 +283,9 @@ class Gen:
             out += self.nl()
         for i in range(n):
             out += self.rule(i)
-            if i < n - 1 or r.random() < 0.7:
+            if i < n - 1 and r.random() < 0.08:
+                out += r.choice([" ", "  ", "\t"]); self.feat.add("rules-on-one-line")
+            elif i < n - 1 or r.random() < 0.7:
                 out += self.nl() * r.choice([1, 1, 1, 2, 3])
                 if r.random() < 0.15:
                     out += self.comment() + self.nl()
@@ -318,11 +320,12 @@ SPECIAL = [
     "a = b\n", "a = 1\na = 2", "a = 1\r\nb = 2\r\na = 3", "é = int", "a = é\n", "a = 日本", "; é\na = int ; ü\n€",
     "a = int\r\nb = é", "a = \"é\r\n", "a = 'é", "a = h'é'", "a = int ; é", "a = ; é", "a = ; 日本\n ", "a = [ ; 𝄞\n",
     "a = #6.32", "a = #6", "a = #", "a = #7.25", "a = #6.<b>(int)\nb = 1", "a = {1*2 \"k\" ^ => tstr, * tstr => any}",
+    "a = \"é\" a = 2", "x = \"日本\" b = 'é' b = 1\n", "a = 1 ; é\r\nb = \"ü€\" c = 2 b = 3", "a = 1 a = 2",
     "a = (int / tstr)\n", "g = (a: int, b: tstr)\n", "g //= (x: 1 // y: 2)\n", "a /= 1 .. 5\n", "a = 1...5", "a = 0x1.8p3",
     "a<T, K> = {* K => T}\n", "a = b<int, [* tstr]>\nb<X, Y> = [X, Y]\n", "a = &(x: 1, y: 2) / &g\ng = (z: 3)\n",
     "a = ~b\nb = [int]\n", "a = bstr .size (1..4)\n", "a = tstr .regexp \"[a-z]+é\"\n", "a = 18446744073709551616",
     "a = h'0g'", "a = b64'!!'", "a = [99999999999999999999*3 int]", "a = #6.99999999999999999999(int)", "a = tstr .nope 3",
-    "﻿a = int", "a = int", "a = int b = tstr", "a = int\x0cb = 2", "a = \"x\ty\"", "a = {\n\t? \"kéy\" : int, ; tréma\n}\n",
+    "\ufeffa = int", "a\u00a0= int", "a = int\u2028b = tstr", "a = int\x0cb = 2", "a = \"x\ty\"", "a = {\n\t? \"kéy\" : int, ; tréma\n}\n",
 ]
 
 
@@ -647,8 +650,45 @@ def evaluate(drv, orc, texts, repaired=False):
     return parsed, impl
 
 
+def sweep_check(drv, orc, texts, repaired):
+    """convert_pest_error at every character-boundary offset of each text: implementation vs model.
+    returns (n_offsets, problems[(text, desc)], class histogram)"""
+    hexes = [t.encode("utf-8").hex() for t in texts]
+    impl = common.run_tool(drv, ["X\t" + h for h in hexes])
+    model = common.run_tool(orc, ["X\t" + h for h in hexes])
+    n, problems, hist = 0, [], {}
+    for t, a, m in zip(texts, impl, model):
+        b = t.encode("utf-8")
+        try:
+            got = [tuple(int(x) for x in e.split(" ")) for e in a.split(",")]
+            mf, mx = m.split("|")
+            faithful = [tuple(int(x, 16) for x in e.split(" ")) for e in mf.split(",")]
+            fixed = [tuple(int(x, 16) for x in e.split(" ")) for e in mx.split(",")]
+        except ValueError:
+            problems.append((t, "sweep output unreadable: impl %r model %r" % (a[:80], m[:80])))
+            continue
+        if len(got) != len(faithful):
+            problems.append((t, "sweep lengths differ: impl %d offsets, model %d" % (len(got), len(faithful))))
+            continue
+        for g, f, x in zip(got, faithful, fixed):
+            n += 1
+            p, idx, line, col, lo, hi = g
+            cls = "forward" if lo == p and hi > p else "backward" if lo < p else "zero-width"
+            if not (is_boundary(b, lo) and is_boundary(b, hi)):
+                cls += ":inside-char"
+            hist[cls] = hist.get(cls, 0) + 1
+            if g != f and not (repaired and g == x):
+                problems.append((t, "convert_pest_error at offset %d: implementation (index,line,column,a,b) = %s, model %s" % (p, g[1:], f[1:])))
+            elif not (lo <= hi <= len(b) and lo <= p and idx == lo and (line, col) == line_col_of(b, idx)):
+                problems.append((t, "convert_pest_error at offset %d: %s violates a <= b <= len / a <= offset / index = a / line,column of index" % (p, g[1:])))
+    return n, problems, hist
+
+
 def vm_expr(text, line):
     f = line.split("\t")
+    if f[0] == "X":
+        bs = common.coq_list(list(bytes.fromhex(f[1])))
+        return "(err_sweep_render %s ++ [124] ++ err_sweep_fixed_render %s)%%list" % (bs, bs)
     if f[0] == "W":
         return "events_wf_render %s%%N %s" % (f[1], common.coq_list([int(x) for x in f[2].split(",")] if f[2] != "-" else []))
     bs = common.coq_list(list(bytes.fromhex(f[1])))
@@ -746,9 +786,19 @@ def run(tier, seed):
                     pool.append(model_line_for_error(h, rec["err"]))
         del recs, impl
 
+    # 2b. convert_pest_error at every offset (exhaustive over the character boundaries of each chosen text)
+    short = [c[1] for c in cases if len(c[1].encode()) <= 120]
+    sweep_texts = [c[1] for c in cases[:len(SPECIAL)]] + rng.sample(short, min(len(short), 600 if tier == "quick" else 12000))
+    sweep_n, sweep_problems, sweep_hist = sweep_check(drv, orc, sweep_texts, repaired)
+    for t, desc in sweep_problems[:50]:
+        clause_hist["sweep"] = clause_hist.get("sweep", 0) + 1
+        res.violation("C15 error-position model: %s on %r" % (desc, t[:120]),
+                      {"text_hex": t.encode().hex(), "text": t, "clause": "sweep", "detail": desc})
+    sweep_vm = ["X\t" + t.encode().hex() for t in sweep_texts if 0 < len(t.encode()) <= 30][:10]
+
     # 3. vm_compute slice of the oracle requests
     sl = rng.sample(pool, min(140, len(pool)))
-    sl += ["E\t%s\t4" % "a = é".encode().hex(), "E\t%s\t9" % "a = ; é\n".encode().hex(), "W\t9\t0,0,3,8,8,15,19,19", "W\t9\t0,8,19,16,19,19"]
+    sl += sweep_vm + ["E\t%s\t4" % "a = é".encode().hex(), "E\t%s\t9" % "a = ; é\n".encode().hex(), "W\t9\t0,0,3,8,8,15,19,19", "W\t9\t0,8,19,16,19,19"]
     vm = common.vm_compute_slice(PROP, VM_PREAMBLE, [vm_expr(None, l) for l in sl])
     orc_sl = common.run_tool(orc, sl, shards=1)
     vm_bad = [(l, x, y) for l, x, y in zip(sl, vm, orc_sl) if x != y]
@@ -768,7 +818,7 @@ def run(tier, seed):
     if not proved and not res.violations:
         res.violation(res.proof_broken, {"kind": "proof-obligation", "detail": res.proof_broken}, no_input=True)
     res.coverage.update({
-        "evaluations": len(cases) + len(findings),
+        "evaluations": len(cases) + len(findings) + sweep_n,
         "distinct_nontrivial": len(distinct),
         "rule": "documents from a structure-directed CDDL generator (every construct of cddl.pest; LF / CRLF / mixed line ends, tabs, blank lines, "
                 "multi-byte UTF-8 in text, byte strings and comments, missing final newline), their single- and double-edit mutants (delete / insert / "
@@ -780,7 +830,8 @@ def run(tier, seed):
         "spans_checked": spans_checked, "node_kind_histogram": dict(sorted(kind_hist.items())),
         "default_span_kinds": defaults, "default_span_kinds_allowed": sorted(DEFAULT_SPAN_OK),
         "error_position_classes": dict(sorted(err_classes.items())),
-        "known_finding_hits": kf_counts, "violated_clauses": clause_hist,
+        "known_finding_hits": kf_counts, "violated_clauses": clause_hist, "violations_total": sum(clause_hist.values()),
+        "error_offset_sweep": {"texts": len(sweep_texts), "offsets": sweep_n, "classes": sweep_hist, "exhaustive_over": "all character-boundary offsets of each of these texts"},
         "vm_compute_slice": len(sl),
         "samples": samples,
     })
@@ -799,7 +850,13 @@ def replay(path):
     common.coq_build([EXTRACT])
     orc = common.build_oracle("pos", ["pos_model"])
     t = bytes.fromhex(r["text_hex"]).decode("utf-8")
-    recs, impl = evaluate(drv, orc, [t])
+    still_open = set()
+    for kid, kf in load_findings().items():
+        wrecs, _ = evaluate(drv, orc, [kf["witness"]["text"]], repaired=True)
+        if kid in wrecs[0]["kf"]:
+            still_open.add(kid)
+    repaired = not ({"kf-c15-range-end-in-char", "kf-c15-range-start-in-char"} & still_open)
+    recs, impl = evaluate(drv, orc, [t], repaired)
     rec = recs[0]
     print("text  :", repr(t))
     print("impl  :", impl[0][:3000])
